@@ -547,7 +547,8 @@ def run_property(prop, module, theorems, tier, seed, nquick, nthorough, feature_
         events=nevents, op_kinds=kinds, hypothesis_holds_on=hyp_counts,
         ticks=sorted(set(p.get('tick', 0) for p in programs)),
         trusted_base_extra=[
-            'Trace/Concrete.v is a hand model of _line_profiler.pyx tied by correspondence (every snapshot incl. times compared inside Coq)',
+            'Trace/Concrete.v: hand model of _line_profiler.pyx, proved equal (gen_run = run) to Gen/TraceCore.v, which harness/py2coq/targets_pyx.py regenerates from the .pyx on every run (the translator\'s reading of the Cython forms and of C++ unordered_map is trusted), and tied by correspondence (every snapshot incl. times compared inside Coq)',
+            'Gen/PyLayer.v: the Python layer of LineProfiler (which methods it adds, reading methods, registration loops) read off line_profiler.py / line_profiler_utils.py by harness/py2coq/targets_pylayer.py',
             'CPython event delivery: phase-A (sys.settrace) and phase-B (PyEval_SetTrace) see the same events (validated by model = implementation on every program)',
             'LD_PRELOAD virtual CLOCK_MONOTONIC (harness/vclock.c); hash(bytes) taken from the running interpreter',
             'the theorems\' hypotheses are evaluated per history (hypothesis_holds_on)'])
